@@ -109,11 +109,11 @@ PROPS = {
         'modules': ISOMODS,
         'canaries': [
             (ISO, "if len(output + add_output) > 999:", "if len(output + add_output) > 1000:", "carrier may reach 1000 characters", "pds-pack-unpack[2"),
-            (ISO, "if len(output + add_output) > 999:", "if len(output) + length > 999:", "header of the added sub-element not counted", "pds-pack-unpack[2"),
+            (ISO, "if len(output + add_output) > 999:", "if len(output) + length > 999:", "header of the added sub-element not counted", "_pds_to_de/any-number"),
             (ISO, "    while field_pointer < len(field_data):\n        # get the pds tag id", "    while field_pointer + 7 < len(field_data):\n        # get the pds tag id", "trailing empty sub-element dropped", "_pds_to_dict/item-tiled"),
             (ISO, "field_pointer += 7+pds_field_length", "field_pointer += 8+pds_field_length", "PDS walker skips a character", "_pds_to_dict/item-tiled"),
         ],
-        'assumptions': ["_pds_to_dict: any number of sub-elements (loop invariant over an item-tiled carrier); _pds_to_de: 1..3 sub-elements with symbolic value lengths 0..992 (every carrier-boundary position), not an arbitrary count; placement into DE48/DE62 through dumps for two sub-elements",
+        'assumptions': ["_pds_to_dict: any number of sub-elements (loop invariant over an item-tiled carrier); _pds_to_de: any number of sub-elements (loop invariant with ghost cut points, an arbitrary closed carrier as skolem; the message dict is modelled as m 'PDS'+4-digit keys in arbitrary insertion order with sorted() returning the ascending list - the contract of sorted) and additionally 1..3 sub-elements with a concrete dict; placement into DE48/DE62 through the real dumps/loads for two sub-elements",
                         "sorted() on 'PDS'+4-digit keys is ascending tag order (lexicographic = numeric for equal-length digit strings)"],
     },
     'C17': {
@@ -229,3 +229,8 @@ PROPS = {
         'assumptions': [],
     },
 }
+
+
+# the frame lint (contracts/lint.py: no state shared between calls or instances) backs every property's per-call contracts
+for _p in PROPS.values():
+    _p['modules'] = list(_p['modules']) + ['contracts.lint']
